@@ -510,7 +510,11 @@ def run_api(ctx, case):
         if api == 'measure':
             psi = psi_shared
             b, p, q = nq.sim.state.measure_quantum_vector(psi, tuple(range(0, n, 2)), seed=seed)
-            return [np.array(b), p, q]
+            ret_ = [np.array(b), p, q]
+            if isinstance(b, list):  # the returned bit list belongs to the caller: editing it must not influence the repeated call
+                b.reverse()
+                b.append(5)
+            return ret_
         if api == 'circuit_measure':
             psi = psi_shared
             c = nq.sim.Circuit()
